@@ -269,6 +269,7 @@ func init() {
 				sjs := mustJSON(s)
 				nt := false
 				for _, pol := range []mcrt.Policy{mcrt.Asc, mcrt.Desc} {
+					c.Begin(&Violation{Signature: "fatal crash of the process", Generator: "c20", Input: J{"doc": json.RawMessage(sjs)}, Env: J{"policy": int(pol)}})
 					sig, what, nontrivial, outcome := c20Check(sjs, pol)
 					if outcome == "" && sig == "" {
 						c.Count("not_loadable", 1)
